@@ -1,9 +1,15 @@
 """Shared driver of the trading-stream checks: generate scenarios, run the real rqalpha, step-sync the recorded Account
 operations of the requested account types against the Lean model, run the requested monitors."""
 import random
-import vlib, bundle as B, trading, acct_sync, sync_misc
+import vlib, bundle as B, trading, acct_sync, sync_misc, world_sync
 
 OPS = ["apply_trade", "_on_order_pending_new", "_on_order_unsolicited_update", "_on_bar", "_on_before_trading", "_on_settlement", "deposit_withdraw", "finance_repay"]
+
+
+def world_corrs(ctx):
+    if getattr(ctx, "_world_corrs", None) is None:
+        ctx._world_corrs = world_sync.make_corrs(ctx)
+    return ctx._world_corrs
 
 
 def make_corrs(ctx, ops=OPS, prefix="Account."):
@@ -12,7 +18,8 @@ def make_corrs(ctx, ops=OPS, prefix="Account."):
     return corrs
 
 
-def stream(ctx, n_runs, corrs, monitors, acct_types=("STOCK", "FUTURE"), gen=None, market_opts=None, cfg_opts=None, extra_sync=None):
+def stream(ctx, n_runs, corrs, monitors, acct_types=("STOCK", "FUTURE"), gen=None, market_opts=None, cfg_opts=None, extra_sync=None, world=True):
+    wcorrs = world_corrs(ctx) if world else None
     forced = getattr(ctx, "replay_run", None)          # (run index, run seed) from a replay file: re-run exactly that scenario
     plan = [forced] if forced else None
     for k in range(n_runs if plan is None else 1):
@@ -63,6 +70,8 @@ def stream(ctx, n_runs, corrs, monitors, acct_types=("STOCK", "FUTURE"), gen=Non
                     corrs["chain"].cases += max(0, len(tops) - 1)
         if extra_sync:
             extra_sync(ctx, tr, ix)
+        if wcorrs is not None:
+            world_sync.run_sync(ctx, wcorrs, tr, ix)       # the free-running composed model against the whole run
         for m in monitors:
             m(ctx, tr, ix)
         ctx.stats["trades"] += len([1 for kk, _ in tr.events if kk == "TRADE"])
